@@ -72,12 +72,15 @@ for mode in ("connected", "ucmm", "ucsend"):
                 continue
             def pre(svc, c, i, a, data, st, rep, dl=dl, full=full, mode=mode):
                 lim = {"class": (2**32, 65536, 65536), "instance": (65536, 2**32, 65536), "attribute": (65536, 65536, 2**32)}[full]
-                ok = 0 <= svc < 128 and 0 <= c < lim[0] and 0 <= i < lim[1] and 0 <= a < lim[2] and len(data) == dl and st == 0 and len(rep) == (dl % 3) + 1
+                ok = svc == 0x4B and 0 <= c < lim[0] and 0 <= i < lim[1] and 0 <= a < lim[2] and len(data) == dl and st == 0 and len(rep) == (dl % 3) + 1
                 if mode == "ucmm":
                     ok = ok and not (c == 6 and i == 1)      # the connection manager's own services (Forward Open, Unconnected Send) are not generic requests
                 return ok
             REG.add(f"verbatim/{mode}/data{dl}/addressing-{full}", _mk_ints(mode), pre=pre, timeout=400, funcs=F, weight=2,
-                    desc=f"{mode}: service symbolic, {full} over 0..2^32-1 and the other two ids over 0..65535, {dl} request bytes and the reply data symbolic; router log must show the request verbatim")
+                    desc=f"{mode}: {full} over 0..2^32-1 and the other two ids over 0..65535, {dl} request bytes and the reply data symbolic; router log must show the request verbatim")
+    REG.add(f"verbatim/{mode}/service", _mk_ints(mode),
+            pre=lambda svc, c, i, a, data, st, rep, mode=mode: 0 <= svc < 128 and c == 0x99 and i == 300 and a == 7 and len(data) == 3 and st == 0 and len(rep) == 2,
+            timeout=400, funcs=F, desc=f"{mode}: service code symbolic over 0..127 (every value), odd-length data")
     REG.add(f"verbatim/{mode}/status", _mk_ints(mode),
             pre=lambda svc, c, i, a, data, st, rep: svc == 0x0E and c == 0x99 and i == 1 and a == 0 and len(data) == 2 and 1 <= st < 256 and st != 6 and len(rep) == 1,
             timeout=400, funcs=F, desc=f"{mode}: refused with a symbolic general status 1..255 -> falsy Tag carrying a non-empty error")
